@@ -87,6 +87,10 @@ impl FromStr for DomainName {
             string
         };
 
+        if string == "." {
+            return Ok(DomainName::default());
+        }
+
         let mut domain_name = DomainName::default();
         for label in string_relativ.split('.') {
             let label = label.parse()?;
